@@ -231,3 +231,31 @@ def parse_float(s):
     if s == "-Inf":
         return float("-inf")
     return float(s)
+
+
+# ---- property C18: degree of homogeneity (price, volume) of every real output of every catalogued indicator.
+# A sole numeric input ("c") counts as a price.  The degrees of the outputs that have a documented formula in
+# spec/Formulas.tla are checked on the formula by TLC (HomogOK); the others are stated here only.
+P1, P0 = (1, 0), (0, 0)
+DEGREES = {
+    "trend.Sma": [P1], "trend.MovingSum": [P1], "trend.MovingMax": [P1], "trend.MovingMin": [P1], "trend.Ema": [P1], "trend.Rma": [P1],
+    "trend.Smma": [P1], "trend.Wma": [P1], "trend.Apo": [P1], "trend.Macd": [P1, P1], "trend.Dema": [P1], "trend.Tema": [P1],
+    "trend.Trima": [P1], "trend.Trix": [P0], "trend.Tsi": [P0], "trend.TypicalPrice": [P1], "trend.WeightedClose": [P1], "trend.Bop": [P0],
+    "trend.Envelope": [P1, P1, P1], "trend.Envelope/Ema": [P1, P1, P1], "trend.Hma": [P1], "trend.Vwma": [P1], "trend.Aroon": [P0, P0],
+    "trend.Cci": [P0], "trend.Kdj": [P0, P0, P0], "trend.MassIndex": [P0], "trend.Kama": [P1],
+    "momentum.AwesomeOscillator": [P1], "momentum.Ppo": [P0, P0, P0], "momentum.Pvo": [P0, P0, P0], "momentum.Qstick": [P1],
+    "momentum.Rsi": [P0], "momentum.StochasticOscillator": [P0, P0], "momentum.StochasticRsi": [P0], "momentum.WilliamsR": [P0],
+    "momentum.ChaikinOscillator": [(0, 1), (0, 1)], "momentum.IchimokuCloud": [P1, P1, P1, P1, P1],
+    "volatility.Atr": [P1], "volatility.Atr/Ema": [P1], "volatility.Atr/Smma": [P1], "volatility.Atr/Wma": [P1], "volatility.Atr/Hma": [P1],
+    "volatility.MovingStd": [P1], "volatility.BollingerBandWidth": [P0], "volatility.PercentB": [P0], "volatility.BollingerBands": [P1, P1, P1],
+    "volatility.DonchianChannel": [P1, P1, P1], "volatility.KeltnerChannel": [P1, P1, P1], "volatility.KeltnerChannel/fields": [P1, P1, P1],
+    "volatility.ChandelierExit": [P1, P1], "volatility.AccelerationBands": [P1, P1, P1], "volatility.UlcerIndex": [P0],
+    "volatility.Po": [P0], "volatility.SuperTrend": [P1], "volatility.SuperTrend/Sma": [P1], "volatility.SuperTrend/Ema": [P1],
+    "volume.Mfm": [P0], "volume.Mfv": [(0, 1)], "volume.Ad": [(0, 1)], "volume.Cmf": [P0], "volume.Emv": [(2, -1)], "volume.Fi": [(1, 1)],
+    "volume.Mfi": [P0], "volume.Nvi": [P0], "volume.Obv": [(0, 1)], "volume.Vpt": [(0, 1)], "volume.Vwap": [P1],
+}
+# configurations of the indicators without a Formulas entry
+EXTRA_CFGS = {
+    "volatility.Po": [[2], [3]], "volatility.SuperTrend": [[2], [3]], "volatility.SuperTrend/Sma": [[2]], "volatility.SuperTrend/Ema": [[3]],
+    "volatility.Atr/Hma": [[4]], "volume.Obv": [[]],
+}
